@@ -1,6 +1,7 @@
 """C13 — Monte Carlo iterations are independent draws from the requested distributions (DESIGN §4 C13)."""
 from __future__ import annotations
 
+import json
 import os
 import re
 import shutil
@@ -146,6 +147,76 @@ def replay_system(settings, iterations=None):
         shutil.rmtree(d, ignore_errors=True)
 
 
+def replay_requests_real(settings, iterations=4):
+    """the real main(), real process pool, real numpy, real HIP-RA-X - with numpy's five sampling functions wrapped so that every request
+    (function name, arguments, process id) is appended to a file the forked workers inherit: each iteration must have requested exactly one
+    variate per INPUT line, from the distribution and with the parameters that line states, in order."""
+    key = ('requests', json.dumps(settings))
+    if key in _REPLAYED:
+        return _REPLAYED[key]
+    import contextlib
+    import io
+    import warnings
+    import numpy as real_np
+    from .. import shim
+    d = tempfile.mkdtemp(prefix='symx_c13req_')
+    cwd, argv = os.getcwd(), sys.argv
+    try:
+        inp, st, out, rec = (os.path.join(d, n) for n in ('hip.txt', 'settings.txt', 'MC_Result.txt', 'requests.txt'))
+        with open(inp, 'w') as f:
+            f.write('Reservoir Temperature, 250.0\nRejection Temperature, 60.0\nReservoir Porosity, 10.0\nReservoir Area, 55.0\n'
+                    'Reservoir Thickness, 0.25\nReservoir Life Cycle, 25\n')
+        with open(st, 'w') as f:
+            for s_ in settings:
+                f.write('INPUT, ' + ', '.join(s_) + '\n')
+            f.write('OUTPUT, Producible Electricity (reservoir)\nITERATIONS, %d\nMC_OUTPUT_FILE, %s\n' % (iterations, out))
+
+        class RandRec:
+            def __getattr__(self, k):
+                fn = getattr(real_np.random, k)
+                if k not in ('normal', 'uniform', 'triangular', 'lognormal', 'binomial'):
+                    return fn
+
+                def wrapped(*a, **kw):
+                    with open(rec, 'a') as f:
+                        f.write(json.dumps([os.getpid(), k, [float(x) for x in a]]) + '\n')
+                    return fn(*a, **kw)
+                return wrapped
+
+        class NpRec:
+            random = RandRec()
+
+            def __getattr__(self, k):
+                return getattr(real_np, k)
+        err = None
+        with shim.shadow((MC, 'np', NpRec())), contextlib.redirect_stdout(io.StringIO()), contextlib.redirect_stderr(io.StringIO()), warnings.catch_warnings():
+            warnings.simplefilter('ignore')
+            try:
+                MC.main(command_line_args=[os.path.join(gx.SRC, 'hip_ra_x', 'hip_ra_x.py'), inp, st, out])
+            except Exception as e:   # the summary may fail on degenerate data; the requests are what matters
+                err = repr(e)[:120]
+        per_pid = {}
+        for ln in (open(rec).read().splitlines() if os.path.exists(rec) else []):
+            pid_, k, a = json.loads(ln)
+            per_pid.setdefault(pid_, []).append((k, tuple(a)))
+        want = [(s_[1], tuple(float(x) for x in s_[2:])) for s_ in settings]
+        bad, n_it = [], 0
+        for pid_, reqs in per_pid.items():
+            for i in range(0, len(reqs), len(want)):
+                chunk = reqs[i:i + len(want)]
+                n_it += 1
+                if chunk != want:
+                    bad.append({'requested': chunk, 'settings': want})
+        res = (bool(bad) or n_it != iterations), {'iterations': iterations, 'iterations whose requests were recorded': n_it, 'first deviating iterations': bad[:2],
+                                                  'summary_error': err}
+        _REPLAYED[key] = res
+        return res
+    finally:
+        os.chdir(cwd)
+        sys.argv = argv
+        shutil.rmtree(d, ignore_errors=True)
+
+
 def units(tier, seed):
     us = []
     for (K, W) in KW[tier]:
@@ -191,7 +262,7 @@ def check_obs(log, c, obs, settings, zv, concrete_dups, concrete_precision, firs
             want = tuple(float(x) if s[1] != 'binomial' or i else int(x) for i, x in enumerate(s[2:]))
             ok_req = ok_req and d.dist == s[1] and tuple(float(x) for x in d.params) == tuple(float(x) for x in want)
         harness.discharge(log, c, f'iteration {it}: one variate per INPUT, requested from the executing process\'s numpy generator with the settings\' distribution and parameters',
-                          bool(ok_req), zv, concrete_dups, sample=(first and it == 0))
+                          bool(ok_req), zv, lambda inp: replay_requests_real([list(s_) for s_ in settings]), sample=(first and it == 0))
         if sm is not None and ok_req:
             # (4) what the simulation receives is the variate itself, at full precision
             ok_txt = len(sm) == len(settings)
